@@ -40,6 +40,12 @@ PosFrom(seq, x, i) == IF i > Len(seq) THEN 0 ELSE IF seq[i] = x THEN i ELSE PosF
 IndexIn(seq, x) == PosFrom(seq, x, 1)
 InSeq(seq, x) == \E i \in 1..Len(seq) : seq[i] = x
 
+\* materialise a (possibly lazily represented) sequence as an explicit tuple: TLC re-evaluates the body of
+\* [i \in 1..n |-> e] on every application, which is exponential in nesting depth when e recurses
+Mat(s) == FoldLeft(LAMBDA acc, x : Append(acc, x), <<>>, s)
+\* map a unary operator over a sequence, materialised
+MapSeq(Op(_), s) == FoldLeft(LAMBDA acc, x : Append(acc, Op(x)), <<>>, s)
+
 \* concatenate a sequence of sequences
 Concat(ss) == FoldLeft(LAMBDA acc, s : acc \o s, <<>>, ss)
 
